@@ -68,7 +68,11 @@ def _run(case):
     with np.errstate(all='ignore'):
         boh, h = d(np.log(P), model_eos=case['eos'], return_h=True, **kw)
     bad = []
+    if case['init'] and kw['init_h'].states != [()]:
+        bad.append('the supplied start state was overwritten in place: %r' % (kw['init_h'].states,))
     hyps = list(boh)
+    if boh.lm_weight != scale:
+        bad.append('the bag archives LM scale %r, the decoder was built with %r' % (boh.lm_weight, scale))
     for hy in hyps:
         pre = tuple(letters.index(ch) for ch in hy.transcript)
         exp = sum(lm.score(pre[:i], c) + bonus for i, c in enumerate(pre)) + (lm.eos(pre) if case['eos'] else 0.0)
